@@ -37,6 +37,8 @@ pub struct UpState {
     pub pc: usize,
     pub ended: bool,
     pub items_made: u32,
+    /// address at which the upstream was polled last (0 = not polled yet): it is `!Unpin`
+    pub addr: usize,
     pub hlo: usize,
     /// `None` = `hhi=none`
     pub hhi: Option<usize>,
@@ -50,6 +52,7 @@ impl UpState {
             pc: 0,
             ended: false,
             items_made: 0,
+            addr: 0,
             hlo: 0,
             hhi: Some(0),
             is_try: false,
